@@ -1,3 +1,331 @@
-//! C04 bounded native checks (not written yet)
+//! C04 bounded: curve portions, splits, trims and reversal on the REAL code over an enumerated input space.
+//!
+//! Curves: the 2D families of bounded/c05.rs (straight with uneven vertex density, L-shape, stair, Pythagorean zig-zag,
+//! 3-4-5 triangle naturally closed, unit square open / force-closed, dense octagon ring closed / force-closed, nearly
+//! closed "C", bumpy line) at three power-of-two scales, curve tolerance 2^-16 * scale.
+//! Requests: every ordered pair (l0, l1) from the probe set {0, L, every vertex length, every vertex length -2tol,
+//! -tol/4, +tol/2, +3tol, edge mid points, edge quarter points of the first three and the last edge, -2tol, L+2tol,
+//! -1, 2L}; (a, b, control) over a reduced probe set; split / trim at every probe; reversal at every probe; a second
+//! portioning step applied to every 5th extracted portion.
+//! The oracle works on [f64; 3] copies of the vertices (helpers of bounded/c05.rs): brute force, dimension-free.
+use super::c05::{at, base_shapes, cum, d, dog, extent, guarded, p2, poly_dist, to2, P};
 use super::Report;
-pub fn run() -> Option<Report> { None }
+use crate::geom2::{Curve2, Point2};
+
+fn pts_of(c: &Curve2) -> Vec<P> { c.points().iter().map(p2).collect() }
+
+struct Src<'a> { c: &'a Curve2, v: Vec<P>, cu: Vec<f64>, total: f64, eps: f64, tol: f64, desc: String }
+impl<'a> Src<'a> {
+    fn new(c: &'a Curve2, desc: String) -> Self {
+        let v = pts_of(c);
+        let cu = cum(&v);
+        let total = *cu.last().unwrap();
+        let eps = 1e-9 * extent(&v).max(total);
+        Src { c, v, cu, total, eps, tol: c.tol(), desc }
+    }
+    fn p(&self, l: f64) -> P { at(&self.v, &self.cu, l) }
+    fn in_range(&self, l: f64) -> bool { l >= 0.0 && l <= self.c.length() }
+    /// arc length travelled from l0 to l1 (through the seam when closed and l1 < l0)
+    fn travel(&self, l0: f64, l1: f64) -> Option<f64> {
+        if !self.in_range(l0) || !self.in_range(l1) { return None; }
+        if l1 >= l0 { Some(l1 - l0) } else if self.c.is_closed() { Some(self.total - l0 + l1) } else { None }
+    }
+    /// the vertices a portion l0 -> l1 may consist of, in source order: P(l0), the source vertices strictly between, P(l1)
+    fn expected(&self, l0: f64, l1: f64) -> Vec<P> {
+        let n = self.v.len();
+        let mut e = vec![self.p(l0)];
+        if l1 >= l0 {
+            for i in 0..n { if self.cu[i] > l0 && self.cu[i] < l1 { e.push(self.v[i]); } }
+        } else {
+            for i in 0..n { if self.cu[i] > l0 { e.push(self.v[i]); } }
+            for i in 0..n { if self.cu[i] < l1 { e.push(self.v[i]); } }
+        }
+        e.push(self.p(l1));
+        e
+    }
+}
+
+/// `piece` is, in order, a sub-list of `exp` (every vertex of the piece is matched by a later and later expected vertex)
+fn in_order(piece: &[P], exp: &[P], eps: f64) -> bool {
+    let mut j = 0;
+    for p in piece {
+        while j < exp.len() && d(&exp[j], p) > eps { j += 1; }
+        if j == exp.len() { return false; }
+        // the same expected vertex may not be used twice, except that P(l0)/P(l1) may coincide with a source vertex
+        j += 1;
+    }
+    true
+}
+
+/// all clauses of "the portion from l0 to l1" on a returned piece; `what` prefixes the clause names of derived operations
+fn check_piece(r: &mut Report, s: &Src, piece: &Curve2, l0: f64, l1: f64, what: &str, call: &dyn Fn() -> String) {
+    let v = pts_of(piece);
+    let n = v.len();
+    let travel = match s.travel(l0, l1) { Some(t) => t, None => { r.check(false, &format!("{}: an ill-posed request yields nothing", what), call); return; } };
+    let slack = s.eps + 4.0 * s.tol;
+    r.check(d(&v[0], &s.p(l0)) <= s.eps, &format!("{}: the portion starts at the point at the first length", what), || format!("{} -> first vertex {:?}, P(l0) = {:?}", call(), v[0], s.p(l0)));
+    r.check(d(&v[n - 1], &s.p(l1)) <= s.eps + s.tol, &format!("{}: the portion ends at the point at the second length (within tol)", what), || format!("{} -> last vertex {:?}, P(l1) = {:?}", call(), v[n - 1], s.p(l1)));
+    let worst = v.iter().map(|p| poly_dist(&s.v, p)).fold(0.0, f64::max);
+    r.check(worst <= s.eps, &format!("{}: every vertex of the portion lies on the source curve", what), || format!("{} -> {:?} away", call(), worst));
+    r.check(in_order(&v, &s.expected(l0, l1), s.eps), &format!("{}: vertices are P(l0), source vertices in source order, P(l1)", what), || format!("{} -> {:?}", call(), v));
+    r.check((piece.length() - travel).abs() <= slack, &format!("{}: length equals the arc-length difference (through the seam when closed and l1 < l0)", what), || format!("{} -> length {:?}, expected {:?}", call(), piece.length(), travel));
+    r.check(piece.tol() == s.tol, &format!("{}: the portion keeps the curve tolerance", what), call);
+}
+
+/// between_lengths(l0, l1) against the statement; returns the piece for a second portioning step
+fn check_between(r: &mut Report, s: &Src, l0: f64, l1: f64) -> Option<Curve2> {
+    r.case();
+    let call = || format!("{} .between_lengths({:?}, {:?})  [L = {:?}, tol = {:?}]", s.desc, l0, l1, s.total, s.tol);
+    dog::call(0, l0, l1, f64::NAN);
+    let res = match guarded(|| s.c.between_lengths(l0, l1)) { Ok(x) => x, Err(why) => { r.check(false, "between_lengths does not panic", || format!("{} -> {}", call(), why)); return None; } };
+    let travel = s.travel(l0, l1);
+    let ill = match travel { None => true, Some(t) => (l1 - l0).abs() < s.tol || t < s.tol };
+    if ill {
+        r.check(res.is_none(), "between_lengths: an ill-posed request (out of range, reversed on an open curve, shorter than tol) yields None", || format!("{} -> Some(curve of length {:?})", call(), res.as_ref().map(|c| c.length())));
+        return None;
+    }
+    let t = travel.unwrap();
+    match res {
+        None => {
+            // pieces only a few tolerances long may degenerate under de-duplication: no demand
+            if t >= 4.0 * s.tol { r.check(false, "between_lengths: a well-posed request (in range, at least 4 tol long) yields a portion", call); }
+            None
+        }
+        Some(piece) => { check_piece(r, s, &piece, l0, l1, "between_lengths", &call); Some(piece) }
+    }
+}
+
+fn probes(s: &Src, full: bool) -> Vec<f64> {
+    let n = s.v.len();
+    let tol = s.tol;
+    let mut p = vec![0.0, s.c.length()];
+    for i in 0..n {
+        let l = s.c.lengths()[i];
+        p.push(l);
+        if full { for o in [-2.0 * tol, -0.25 * tol, 0.5 * tol, 3.0 * tol] { p.push(l + o); } }
+    }
+    for i in 0..n - 1 {
+        let (a, b) = (s.c.lengths()[i], s.c.lengths()[i + 1]);
+        p.push(a + (b - a) * 0.5);
+        if full && (i < 3 || i == n - 2) { p.push(a + (b - a) * 0.25); p.push(a + (b - a) * 0.75); }
+    }
+    if full { p.extend_from_slice(&[-1.0 * s.total, 2.0 * s.total]); }
+    p.sort_by(|a, b| a.partial_cmp(b).unwrap());
+    p.dedup();
+    p
+}
+
+/// the reduced probe set of the second portioning step: ends, up to four interior vertex lengths, a value about tol
+/// after the first vertex, the mid points of the first and the last edge, one value out of range
+fn probes2(s: &Src) -> Vec<f64> {
+    let n = s.v.len();
+    let ls = s.c.lengths();
+    let mut p = vec![0.0, s.c.length(), ls[1] * 0.5, (ls[n - 2] + ls[n - 1]) * 0.5, ls[1] + 3.0 * s.tol, s.total * 1.25];
+    let step = ((n - 1) / 4).max(1);
+    let mut i = 1;
+    while i < n - 1 { p.push(ls[i]); i += step; }
+    p.sort_by(|a, b| a.partial_cmp(b).unwrap());
+    p.dedup();
+    p
+}
+
+fn check_curve(r: &mut Report, c: &Curve2, desc: String, depth: usize) {
+    let s = Src::new(c, desc);
+    dog::subject(&s.desc);
+    let full = depth == 0;
+    let pr = if full { probes(&s, true) } else { probes2(&s) };
+    // ---- between_lengths over every ordered pair; a second portioning step on every 5th portion
+    let mut k = 0usize;
+    for &l0 in pr.iter() { for &l1 in pr.iter() {
+        if let Some(piece) = check_between(r, &s, l0, l1) {
+            k += 1;
+            if depth == 0 && k % 5 == 0 && piece.count() <= 12 {
+                let d2 = format!("{} .between_lengths({:?}, {:?}).unwrap()", s.desc, l0, l1);
+                check_curve(r, &piece, d2, 1);
+                dog::subject(&s.desc);
+                // the second-step portions lie on the ORIGINAL curve as well
+                let s2 = Src::new(&piece, String::new());
+                let mid = s2.total * 0.5;
+                if let Some(pp) = piece.between_lengths(mid * 0.5, mid * 1.5) {
+                    let worst = pts_of(&pp).iter().map(|p| poly_dist(&s.v, p)).fold(0.0, f64::max);
+                    r.check(worst <= s.eps + s.tol, "a portion of a portion lies on the original curve (within tol)", || format!("{} .between_lengths({:?}, {:?}).unwrap().between_lengths({:?}, {:?}) -> {:?} away", s.desc, l0, l1, mid * 0.5, mid * 1.5, worst));
+                    r.check((pp.length() - mid).abs() <= s.eps + 8.0 * s.tol, "a portion of a portion has the requested length", || format!("{} .between_lengths({:?}, {:?}).unwrap().between_lengths({:?}, {:?}) -> {:?}", s.desc, l0, l1, mid * 0.5, mid * 1.5, pp.length()));
+                }
+            }
+        }
+    } }
+    let slack = s.eps + 4.0 * s.tol;
+    // ---- trims
+    for &x in pr.iter() {
+        r.case();
+        let call_f = || format!("{} .trim_front({:?})  [L = {:?}, tol = {:?}]", s.desc, x, s.total, s.tol);
+        let call_b = || format!("{} .trim_back({:?})  [L = {:?}, tol = {:?}]", s.desc, x, s.total, s.tol);
+        let well = x >= 0.0 && x <= s.total - 4.0 * s.tol;
+        let ill = !(x >= 0.0 && x <= s.total - s.tol);
+        dog::call(1, x, f64::NAN, f64::NAN);
+        match guarded(|| s.c.trim_front(x)) {
+            Err(why) => r.check(false, "trim_front does not panic", || format!("{} -> {}", call_f(), why)),
+            Ok(None) => { if well { r.check(false, "trim_front: a well-posed request yields a curve", call_f); } }
+            Ok(Some(t)) => {
+                if ill { r.check(false, "trim_front: an ill-posed request (negative, or leaving less than tol) yields None", call_f); }
+                else {
+                    r.check((t.length() - (s.total - x)).abs() <= slack, "trim_front removes exactly the requested length", || format!("{} -> length {:?}", call_f(), t.length()));
+                    let v = pts_of(&t);
+                    r.check(d(&v[0], &s.p(x)) <= s.eps, "trim_front: the result starts at the point at the trimmed length", || format!("{} -> {:?}", call_f(), v[0]));
+                    r.check(d(&v[v.len() - 1], &s.v[s.v.len() - 1]) <= s.eps + s.tol, "trim_front keeps the back end", || format!("{} -> {:?}", call_f(), v[v.len() - 1]));
+                    check_piece(r, &s, &t, x, s.c.length(), "trim_front", &call_f);
+                }
+            }
+        }
+        dog::call(2, x, f64::NAN, f64::NAN);
+        match guarded(|| s.c.trim_back(x)) {
+            Err(why) => r.check(false, "trim_back does not panic", || format!("{} -> {}", call_b(), why)),
+            Ok(None) => { if well { r.check(false, "trim_back: a well-posed request yields a curve", call_b); } }
+            Ok(Some(t)) => {
+                if ill { r.check(false, "trim_back: an ill-posed request (negative, or leaving less than tol) yields None", call_b); }
+                else {
+                    r.check((t.length() - (s.total - x)).abs() <= slack, "trim_back removes exactly the requested length", || format!("{} -> length {:?}", call_b(), t.length()));
+                    let v = pts_of(&t);
+                    r.check(d(&v[0], &s.v[0]) <= s.eps, "trim_back keeps the front end", || format!("{} -> {:?}", call_b(), v[0]));
+                    r.check(d(&v[v.len() - 1], &s.p(s.total - x)) <= s.eps + s.tol, "trim_back: the result ends at the point at L - trimmed length", || format!("{} -> {:?}", call_b(), v[v.len() - 1]));
+                }
+            }
+        }
+    }
+    // ---- splits
+    if !c.is_closed() {
+        for &x in pr.iter() {
+            r.case();
+            let call = || format!("{} .split_open_at_length({:?})  [L = {:?}, tol = {:?}]", s.desc, x, s.total, s.tol);
+            let well = x >= 4.0 * s.tol && x <= s.total - 4.0 * s.tol;
+            let ill = !(x >= s.tol && x <= s.total - s.tol);
+            dog::call(3, x, f64::NAN, f64::NAN);
+            match guarded(|| s.c.split_open_at_length(x).ok()) {
+                Err(why) => r.check(false, "split_open_at_length does not panic", || format!("{} -> {}", call(), why)),
+                Ok(None) => { if well { r.check(false, "split_open_at_length: a well-posed split yields two pieces", call); } }
+                Ok(Some((a, b))) => {
+                    if ill { r.check(false, "split_open_at_length: an ill-posed split (a piece shorter than tol, out of range) yields an error", call); continue; }
+                    r.check((a.length() + b.length() - s.total).abs() <= 2.0 * slack, "split_open_at_length: the pieces' lengths sum to the whole", || format!("{} -> {:?} + {:?}", call(), a.length(), b.length()));
+                    let (va, vb) = (pts_of(&a), pts_of(&b));
+                    r.check(d(&va[va.len() - 1], &vb[0]) <= s.eps + s.tol && d(&vb[0], &s.p(x)) <= s.eps, "split_open_at_length: the pieces meet at the split point", || format!("{} -> {:?} / {:?}", call(), va[va.len() - 1], vb[0]));
+                    r.check(d(&va[0], &s.v[0]) <= s.eps && d(&vb[vb.len() - 1], &s.v[s.v.len() - 1]) <= s.eps + s.tol, "split_open_at_length: the pieces keep the outer ends", call);
+                    check_piece(r, &s, &a, 0.0, x, "split_open_at_length (first piece)", &call);
+                    check_piece(r, &s, &b, x, s.c.length(), "split_open_at_length (second piece)", &call);
+                }
+            }
+        }
+        r.check(guarded(|| c.split_closed_at_lengths(s.total * 0.25, s.total * 0.5).is_err()).unwrap_or(false), "split_closed_at_lengths on an open curve is an error", || s.desc.clone());
+    } else {
+        let small = if full { probes(&s, false) } else { probes2(&s) };
+        for &x in small.iter() { for &y in small.iter() {
+            r.case();
+            let call = || format!("{} .split_closed_at_lengths({:?}, {:?})  [L = {:?}, tol = {:?}]", s.desc, x, y, s.total, s.tol);
+            let (t0, t1) = (s.travel(x, y).unwrap_or(0.0), s.travel(y, x).unwrap_or(0.0));
+            let well = t0 >= 4.0 * s.tol && t1 >= 4.0 * s.tol && (x - y).abs() >= 4.0 * s.tol;
+            dog::call(4, x, y, f64::NAN);
+            match guarded(|| s.c.split_closed_at_lengths(x, y).ok()) {
+                Err(why) => r.check(false, "split_closed_at_lengths does not panic", || format!("{} -> {}", call(), why)),
+                Ok(None) => { if well { r.check(false, "split_closed_at_lengths: a well-posed split yields two pieces", call); } }
+                Ok(Some((a, b))) => {
+                    if (x - y).abs() < s.tol { r.check(false, "split_closed_at_lengths: an ill-posed split yields an error", call); continue; }
+                    r.check((a.length() + b.length() - s.total).abs() <= 2.0 * slack, "split_closed_at_lengths: the pieces' lengths sum to the whole", || format!("{} -> {:?} + {:?}", call(), a.length(), b.length()));
+                    let (va, vb) = (pts_of(&a), pts_of(&b));
+                    r.check(d(&va[va.len() - 1], &vb[0]) <= s.eps + s.tol && d(&vb[vb.len() - 1], &va[0]) <= s.eps + s.tol, "split_closed_at_lengths: the pieces meet at both split points", call);
+                    check_piece(r, &s, &a, x, y, "split_closed_at_lengths (first piece)", &call);
+                    check_piece(r, &s, &b, y, x, "split_closed_at_lengths (second piece)", &call);
+                }
+            }
+        } }
+        r.check(guarded(|| c.split_open_at_length(s.total * 0.5).is_err()).unwrap_or(false), "split_open_at_length on a closed curve is an error", || s.desc.clone());
+    }
+    // ---- control-point variant
+    let small = if full { probes(&s, false) } else { let q = probes2(&s); q.iter().cloned().step_by(2).collect() };
+    let mut ctrl = small.clone();
+    if full { ctrl.extend_from_slice(&[-0.5 * s.total, -2.0 * s.tol, s.total + 2.0 * s.tol]); }
+    for &a in small.iter() { for &b in small.iter() { for &ct in ctrl.iter() {
+        r.case();
+        let call = || format!("{} .between_lengths_by_control({:?}, {:?}, {:?})  [L = {:?}, tol = {:?}, closed = {}]", s.desc, a, b, ct, s.total, s.tol, c.is_closed());
+        dog::call(5, a, b, ct);
+        let res = match guarded(|| s.c.between_lengths_by_control(a, b, ct)) { Ok(x) => x, Err(why) => { r.check(false, "between_lengths_by_control does not panic", || format!("{} -> {}", call(), why)); continue; } };
+        let (lo, hi) = (a.min(b), a.max(b));
+        let inside = lo < ct && ct < hi;
+        let outside = (ct < lo || ct > hi) && s.in_range(ct);
+        // the piece that contains the control: lo -> hi when the control lies between, hi -> lo (through the seam) otherwise
+        let want = if inside { Some((lo, hi)) } else if outside && c.is_closed() { Some((hi, lo)) } else { None };
+        match (res, want) {
+            (Some(p), None) => {
+                if !s.in_range(ct) { r.check(false, "between_lengths_by_control: a control position outside [0, L] yields None", call); }
+                else if outside { r.check(false, "between_lengths_by_control: on an open curve a control outside [a, b] yields None (no piece between a and b contains it)", call); }
+                else {
+                    // control == a or b: both pieces contain it; whichever is returned must be one of them
+                    let ok = [(lo, hi), (hi, lo)].iter().any(|&(x, y)| s.travel(x, y).map_or(false, |t| (p.length() - t).abs() <= s.eps + 4.0 * s.tol));
+                    r.check(ok, "between_lengths_by_control: control on an end: the result is one of the two pieces", call);
+                }
+            }
+            (None, Some((x, y))) => {
+                let t = s.travel(x, y).unwrap_or(0.0);
+                if t >= 4.0 * s.tol && (x - y).abs() >= 4.0 * s.tol { r.check(false, "between_lengths_by_control: a well-posed request yields the piece containing the control", call); }
+            }
+            (Some(p), Some((x, y))) => {
+                if s.travel(x, y).is_some() && (x - y).abs() >= s.tol {
+                    check_piece(r, &s, &p, x, y, "between_lengths_by_control", &call);
+                    let pc = s.p(ct);
+                    let dist = poly_dist(&pts_of(&p), &pc);
+                    r.check(dist <= s.eps + s.tol, "between_lengths_by_control: the returned piece contains the control position", || format!("{} -> P(control) is {:?} away", call(), dist));
+                } else { r.check(false, "between_lengths_by_control: an ill-posed request yields None", call); }
+            }
+            (None, None) => {}
+        }
+    } } }
+    // ---- reversal
+    r.case();
+    dog::call(6, f64::NAN, f64::NAN, f64::NAN);
+    match guarded(|| c.reversed()) {
+        Err(why) => r.check(false, "reversed does not panic", || format!("{} .reversed() -> {}", s.desc, why)),
+        Ok(rv) => {
+            r.check((rv.length() - s.total).abs() <= s.eps, "reversed preserves the length", || format!("{} .reversed() -> {:?}", s.desc, rv.length()));
+            r.check(rv.is_closed() == c.is_closed() && rv.tol() == c.tol() && rv.count() == c.count(), "reversed keeps closedness, tolerance and vertex count", || format!("{} .reversed()", s.desc));
+            for &l in pr.iter() {
+                if !s.in_range(l) { continue; }
+                let call = || format!("{} .reversed().at_length({:?})", s.desc, l);
+                match rv.at_length(l.min(rv.length())) {
+                    None => r.check(false, "reversed: the point at l exists for 0 <= l <= L", call),
+                    Some(st) => { let q = p2(&st.point()); let w = s.p(s.total - l); r.check(d(&q, &w) <= s.eps, "reversed maps the point at l to the point at L - l", || format!("{} -> {:?}, P(L-l) = {:?}", call(), q, w)); }
+                }
+            }
+            // reversing twice gives the vertices back
+            if let Ok(rr) = guarded(|| rv.reversed()) { r.check(pts_of(&rr) == s.v, "reversed twice is the original vertex list", || format!("{} .reversed().reversed()", s.desc)); }
+            // portion of the reversed curve == reversed portion (second step on a derived curve)
+            if full && s.total > 0.0 {
+                let (l0, l1) = (s.total * 0.125, s.total * 0.625);
+                if let (Some(a), Some(b)) = (rv.between_lengths(l0, l1), c.between_lengths(s.total - l1, s.total - l0)) {
+                    let (va, mut vb) = (pts_of(&a), pts_of(&b));
+                    vb.reverse();
+                    let same = va.len() == vb.len() && va.iter().zip(vb.iter()).all(|(x, y)| d(x, y) <= s.eps);
+                    r.check(same, "a portion of the reversed curve is the reversed portion of the curve", || format!("{} .reversed().between_lengths({:?}, {:?})", s.desc, l0, l1));
+                }
+            }
+        }
+    }
+}
+
+const OPS: [&str; 7] = [".between_lengths", ".trim_front", ".trim_back", ".split_open_at_length", ".split_closed_at_lengths", ".between_lengths_by_control", ".reversed"];
+const BOUND: &str = "Curve2: 11 families with small integer/dyadic vertices (open, naturally closed, force-closed, uneven vertex density) x scales 2^-9, 1, 2^6, tol = 2^-16*scale; between_lengths over every ordered pair of probes {0, L, vertex lengths, vertex lengths -2tol/-tol/4/+tol/2/+3tol, edge mid and quarter points, -L, 2L}; trims and splits at every probe; between_lengths_by_control over (a, b, control) from {0, L, vertex lengths, edge mid points} (+ controls out of range); reversal at every probe; the same checks (reduced probe set) on every 5th extracted portion as a second portioning step";
+pub fn run() -> Option<Report> { Some(dog::run(BOUND, &OPS, run_inner)) }
+
+fn run_inner() -> Report {
+    let mut r = Report::new(BOUND);
+    for (name, dim, pts, fc, _) in base_shapes() {
+        if dim != 2 { continue; }
+        for k in [-9i32, 0, 6] {
+            let f = 2f64.powi(k);
+            let v: Vec<Point2> = pts.iter().map(|q| to2(&[q[0] * f, q[1] * f, 0.0])).collect();
+            let tol = f / 65536.0;
+            let c = match Curve2::from_points(&v, tol, fc) { Ok(c) => c, Err(_) => continue };
+            let ps: Vec<String> = v.iter().map(|p| format!("({:?},{:?})", p.x, p.y)).collect();
+            let desc = format!("Curve2::from_points([{}], tol={:?}, force_closed={}) [{} x 2^{}]", ps.join(","), tol, fc, name, k);
+            check_curve(&mut r, &c, desc, 0);
+        }
+    }
+    r
+}
